@@ -27,7 +27,7 @@ CacheEvent(e) ==
    LET s == <<e.cache, e.slot>>
        known == s \in DOMAIN tab IN
    /\ Report(l, Fails(<< <<"C17.cachesound", e.hit => (known /\ tab[s] = e.key)>>,
-                         <<"drift.cachehit", e.hit = known>>,
+                         <<"drift.cachehit", ~e.strict \/ e.hit = known>>,
                          <<"drift.slot", e.modelslot = "" \/ e.modelslot = e.slot>> >>))
    /\ tab' = IF known THEN tab ELSE [x \in DOMAIN tab \cup {s} |-> IF x = s THEN e.key ELSE tab[x]]
    /\ UNCHANGED memo
